@@ -137,7 +137,7 @@ func init() {
 		Explanation: "Decides three structural clauses: (1) operands are never modified — the purity obligations of the write-effect analysis on Sequence.Merge/SubMerge/Truncate, every Expr.Merge/Get and every SubMerge function (exactly the property's 'never modifies its operands'); (2) every combiner reads both operands (an operand-ignoring merge cannot be a homomorphism); (3) cached encoded widths agree with the wrapped expression. Added clauses: shift sub-mergers offset with the source's width; Merge returns a raw operand only when the other is empty; the expiry early-out of Merge tests the older operand's Until().",
 		NotDecided:  []string{"commutativity/associativity in value", "alignment arithmetic of Merge (lead/overlap/gap/tail), SubMerge index arithmetic, Truncate boundaries — these quantify over numeric values"},
 		Assumptions: []string{"external pure-reader table follows documented contracts", "VTA call graph over-approximates dynamic calls"},
-		Rules:       []func(*Ctx){func(c *Ctx) { rulePurity(c, "C05.a") }, ruleC05b, ruleC05c, func(c *Ctx) { ruleC05d(c, "C05.d") }, func(c *Ctx) { ruleC05e(c, "C05.e") }, func(c *Ctx) { ruleMergeExpiry(c, "C05.f") }, func(c *Ctx) { ruleExprAdvances(c, "C05.g") }},
+		Rules:       []func(*Ctx){func(c *Ctx) { rulePurity(c, "C05.a") }, ruleC05b, ruleC05c, func(c *Ctx) { ruleC05d(c, "C05.d") }, func(c *Ctx) { ruleC05e(c, "C05.e") }, func(c *Ctx) { ruleMergeExpiry(c, "C05.f") }, func(c *Ctx) { ruleExprAdvances(c, "C05.g") }, func(c *Ctx) { ruleC05h(c, "C05.h") }},
 	})
 }
 
@@ -263,4 +263,44 @@ func ruleC05e(c *Ctx, rule string) {
 		}
 		c.floor(rule, "raw-operand returns in Sequence.Merge", n, 2)
 	}
+}
+
+// ruleC05h: SubMerge works on the truncated receiver.
+func ruleC05h(c *Ctx, rule string) {
+	c.describe(rule, "flow: in Sequence.SubMerge every time bound of the receiver that enters the offset arithmetic (Until, AsOf, NumPeriods) is read from the value Truncate returned, never from the receiver as passed in — a receiver that reaches past 'until' is cut back first, and offsets computed from its old Until() put fine periods into the wrong coarse periods")
+	sm := c.need(rule, "(z/encoding.Sequence).SubMerge")
+	if sm == nil || len(sm.Params) == 0 {
+		return
+	}
+	recv := sm.Params[0]
+	nTrunc := 0
+	bad := ""
+	for _, f := range withAnon(sm) {
+		for _, call := range calls(f) {
+			cn := calleeName(call)
+			a := call.Common().Args
+			if len(a) == 0 {
+				continue
+			}
+			onRaw := strip(a[0]) == ssa.Value(recv)
+			if fv, ok := strip(a[0]).(*ssa.FreeVar); ok && cellRoot(fv) == ssa.Value(recv) {
+				onRaw = true
+			}
+			switch cn {
+			case "(z/encoding.Sequence).Truncate":
+				if onRaw {
+					nTrunc++
+				}
+			case "(z/encoding.Sequence).Until", "(z/encoding.Sequence).AsOf", "(z/encoding.Sequence).NumPeriods":
+				if onRaw {
+					bad = cn + " at " + c.P.Pos(call.Pos())
+				}
+			}
+		}
+	}
+	if nTrunc == 0 {
+		c.undecided(rule, "SubMerge reads the receiver's bounds after truncating it", sm.Pos(), "no Truncate call on the receiver found")
+		return
+	}
+	c.check(rule, "SubMerge reads the receiver's bounds after truncating it", sm.Pos(), bad == "", "Until/AsOf/NumPeriods are taken from Truncate's result", "a time bound of the untruncated receiver enters the offset arithmetic ("+bad+"): when the stored coarse series reaches past the roll-up's 'until', fine periods are merged into the wrong coarse periods or dropped, and the result depends on how the input was split")
 }
